@@ -22,6 +22,14 @@ class Atom:
         """(op, a, b) for comparison atoms with negation folded in, else None."""
         t = self.term
         if t[0] == "bin" and t[1] in CMP:
+            # (a - b) == 0 is a == b (plain `-`: the subtraction itself did not wrap)
+            if t[1] in ("Eq", "Ne"):
+                for (x, y) in ((t[2], t[3]), (t[3], t[2])):
+                    x_ = x
+                    while x_[0] == "cast":
+                        x_ = x_[1]
+                    if x_[0] == "bin" and x_[1] == "Sub" and y[0] == "const" and y[1] == 0 and not isinstance(y[1], bool):
+                        return (t[1], x_[2], x_[3])
             return (t[1], t[2], t[3])
         if t[0] == "call":
             last = t[1].rsplit("::", 1)[-1]
@@ -78,12 +86,33 @@ def atoms(fn, ctx=None, cut=False):
     out = []
     for bi, bb in enumerate(fn.blocks):
         t = bb["t"]
-        if bb["c"] or t["k"] != "switch" or t.get("dt") != "bool":
+        if bb["c"] or t["k"] != "switch":
             continue
         if pv.flow is not None and pv.flow.state_in[bi] is None:
             continue
         term = pv.operand(t["d"], bi, len(bb["s"]))
         neg = False
+        if t.get("dt") != "bool":
+            # `match a.checked_sub(b) { None => .., Some(d) => .. }` on unsigned integers is the test a < b (None side)
+            from .prov import _UNSIGNED_CHECKED_SUB, strip as _strip
+            x = _strip(term[1]) if term[0] == "discr" else None
+            if x is None or x[0] != "call" or not _UNSIGNED_CHECKED_SUB.match(x[1]) or len(x[2]) != 2:
+                continue
+            arms = {str(v): b for v, b in t["ts"]}
+            none_t = arms.get("0", t["o"])
+            some_t = arms.get("1", t["o"])
+            if none_t == some_t:
+                continue
+            a = Atom()
+            a.fn, a.block, a.line = fn, bi, t.get("l")
+            a.term, a.neg = ("bin", "Lt", x[2][0], x[2][1]), False
+            a.true_targets, a.false_targets = [none_t], [some_t]
+            a.true_fail, a.false_fail = cfg.fail_only(fn, none_t), cfg.fail_only(fn, some_t)
+            a.true_ret, a.false_ret = cfg.return_values_from(fn, none_t), cfg.return_values_from(fn, some_t)
+            a.true_codes = cfg.error_codes_from(fn, none_t) if a.true_fail else set()
+            a.false_codes = cfg.error_codes_from(fn, some_t) if a.false_fail else set()
+            out.append(a)
+            continue
         while term[0] == "un" and term[1] == "Not":
             term = term[2]
             neg = not neg
